@@ -1246,6 +1246,29 @@ def rule_rounds(rep, rid, name):
                               "%s ascon_permute: round block %d relies on the constant the prologue leaves in %s, but round block %d "
                               "does not preserve it" % (isa.name, q, c, r))
                 break
+    # the other function of the file: ascon_backend_free clears scratch registers; it must keep the ABI as well
+    bf = funcs.get("ascon_backend_free")
+    if bf is not None:
+        try:
+            mc = Machine(bf, isa)
+            allm.append(mc)
+            mc.regs = dict(saved0)
+            mc.regs[isa.canon(isa.SP)] = PtrVal("stack", 0)
+            if hasattr(isa, "setup"):
+                isa.setup(mc, 0, link0)
+            else:
+                mc.regs[isa.canon(isa.LINK)] = link0
+                mc.regs[isa.canon(isa.STATE)] = PtrVal("state", 0)
+            for off, v in M.items():
+                mc.mem[("state", off)] = v
+            if finished_ok(mc, mc.run(0)):
+                rep.instance(rid, 1, {"backend": name, "function": "ascon_backend_free", "abi": "saved registers, sp, return address kept"})
+            else:
+                rep.violation(rid, "%s:backend_free" % name, "%s:%d" % (path, bf.insns[0].line),
+                              "%s ascon_backend_free does not return with %s / the stack pointer / the return address intact" % (
+                                  isa.name, ", ".join(isa.SAVED)))
+        except Unsupported as e:
+            rep.unproved_item(rid, "%s: ascon_backend_free: %s" % (name, e))
     oob = sorted(set(x for mc in allm for x in mc.oob))
     if oob:
         rep.violation(rid, "%s:footprint" % name, path, "%s ascon_permute touches memory outside the 40-byte state and its own stack "
